@@ -23,3 +23,195 @@ Theorem C07_invariant_reachable :
     run E fuel hs (init t0 en) ops = (s, rs) -> ~ In NoFuel rs -> Inv s.
 Proof. intros E fuel hs t0 en ops s rs H. exact (run_inv E fuel hs ops _ _ _ (Inv_init t0 en) H). Qed.
 Print Assumptions C07_invariant_reachable.
+
+
+(* ------------------------------------------------------------------------------------------- *)
+(* job store (SchedStore.v) *)
+From EAS Require Import SchedTrace SchedStore SchedCallbacks.
+
+(* in every reachable state (any history, with or without a job store) the store holds exactly the jobs that were
+   registered with it and have not finished, and no id twice *)
+Theorem C07_store_exact :
+  forall E fuel hs t0 en ops s rs,
+    run E fuel hs (init t0 en) ops = (s, rs) -> ~ In NoFuel rs -> StoreOK s.
+Proof. exact store_exact. Qed.
+Print Assumptions C07_store_exact.
+
+(* with a job store: exactly the jobs created so far that have not finished *)
+Theorem C07_store_contents :
+  forall E fuel t0 en ops s rs,
+    run E fuel true (init t0 en) ops = (s, rs) -> ~ In NoFuel rs ->
+    NoDup (map fst (store s)) /\
+    forall key j, In (key, j) (store s) <->
+      ((j < njobs s)%nat /\ jkey (jobs s j) = key /\ jstatus (jobs s j) <> Finished).
+Proof. exact store_contents. Qed.
+Print Assumptions C07_store_contents.
+
+(* the invariant is kept by the six re-entrant core functions for every amount of fuel ... *)
+Theorem C07_store_core :
+  forall E fuel,
+  (forall X s s', WFq X s -> StoreInv s -> set_timer E fuel s = Some s' -> StoreInv s') /\
+  (forall X s s', WFq X s -> enabled s = true -> StoreInv s -> run_jobs E fuel s = Some s' -> StoreInv s') /\
+  (forall X s s', WFq X s -> enabled s = true -> Tl s -> StoreInv s -> run_loop E fuel s = Some s' -> StoreInv s') /\
+  (forall X j s s', WFq (j :: X) s -> ~ In j (queue s) -> ~ In j X -> StoreInv s ->
+     add_job E fuel j s = Some s' -> StoreInv s') /\
+  (forall X j s s', WFq (j :: X) (set_queue (remove_first j (queue s)) s) -> StoreInv s ->
+     remove_job E fuel j s = Some s' -> StoreInv s') /\
+  (forall X j t s s', WFq (j :: X) s -> ~ In j (queue s) -> jstatus (jobs s j) = Running -> enabled s = true -> Tl s ->
+     StoreInv s -> exec_job E fuel j t s = Some s' -> StoreInv s').
+Proof. exact store_core_specs. Qed.
+Print Assumptions C07_store_core.
+
+(* ... and by every API operation *)
+Theorem C07_store_step :
+  forall E fuel hs s o s' r,
+    Inv s -> StoreInv s -> step_op E fuel hs s o = (s', r) -> r <> NoFuel -> StoreInv s'.
+Proof. exact step_op_store. Qed.
+Print Assumptions C07_store_step.
+
+(* a duplicate id is rejected with KeyError and nothing changes *)
+Theorem C07_duplicate_key_rejected :
+  forall E fuel b s,
+    store_has (jkey b) (store s) = true -> create E fuel true b s = (s, Raised EKeyError).
+Proof. exact duplicate_key_rejected. Qed.
+Print Assumptions C07_duplicate_key_rejected.
+
+Theorem C07_duplicate_key_rejected_ops :
+  forall E fuel s key,
+    store_has key (store s) = true ->
+    (forall t, step_op E fuel true s (OOnce t key) = (s, Raised EKeyError)) /\
+    (forall secs, 0 < secs -> step_op E fuel true s (OCountdown secs key) = (s, Raised EKeyError)) /\
+    step_op E fuel true s (OAt key) = (s, Raised EKeyError).
+Proof. exact duplicate_key_rejected_ops. Qed.
+Print Assumptions C07_duplicate_key_rejected_ops.
+
+(* "the id is taken" = a job registered with the store that has not finished carries it *)
+Theorem C07_store_has_live :
+  forall s key, StoreOK s ->
+    (store_has key (store s) = true <->
+     exists j, (j < njobs s)%nat /\ jstored (jobs s j) = true /\ jkey (jobs s j) = key /\ jstatus (jobs s j) <> Finished).
+Proof. exact store_has_live. Qed.
+Print Assumptions C07_store_has_live.
+
+Theorem C07_finished_not_stored :
+  forall s j key, StoreOK s -> jstatus (jobs s j) = Finished -> ~ In (key, j) (store s).
+Proof. exact finished_not_stored. Qed.
+Print Assumptions C07_finished_not_stored.
+
+Theorem C07_store_keys_unique :
+  forall s key j1 j2, StoreOK s -> In (key, j1) (store s) -> In (key, j2) (store s) -> j1 = j2.
+Proof. exact store_keys_unique. Qed.
+Print Assumptions C07_store_keys_unique.
+
+(* ------------------------------------------------------------------------------------------- *)
+(* callbacks (SchedCallbacks.v) *)
+
+(* set_next_run: the log grows by [cb_events] - for every registered on_update callback, in registration order, one
+   event carrying the NEW status and next-run time, followed by a handler event iff that invocation raises; the
+   callback events are exactly [map mk (jcbu ..)]; and the state each callback runs in already shows the new pair *)
+Theorem C07_set_next_run_callbacks :
+  forall E j nx s,
+  let stt := match nx with None => Paused | Some _ => Running end in
+  let mk := fun cb => ECbUpd j cb stt nx in
+  let s1 := set_job j (with_status_next (jobs s j) stt nx) s in
+  log (set_next_run E j nx s) = rev (cb_events E mk (jcbu (jobs s j)) (log s)) ++ log s /\
+  filter is_cbev (cb_events E mk (jcbu (jobs s j)) (log s)) = map mk (jcbu (jobs s j)) /\
+  (forall c1 c2, jcbu (jobs s j) = c1 ++ c2 ->
+     let sm := run_cbs E mk c1 s1 in
+     set_next_run E j nx s = run_cbs E mk c2 sm /\ jstatus (jobs sm j) = stt /\ jnext (jobs sm j) = nx) /\
+  jstatus (jobs (set_next_run E j nx s) j) = stt /\ jnext (jobs (set_next_run E j nx s) j) = nx.
+Proof. exact set_next_run_callbacks. Qed.
+Print Assumptions C07_set_next_run_callbacks.
+
+(* the event list written out (no callback is registered twice: C07_cb_lists_nodup) *)
+Theorem C07_set_next_run_events :
+  forall E j nx s, NoDup (jcbu (jobs s j)) ->
+  let stt := match nx with None => Paused | Some _ => Running end in
+  log (set_next_run E j nx s) =
+  rev (flat_map (fun cb => ECbUpd j cb stt nx ::
+                   (if fail_cb E cb (count_cb cb (log s)) then [EHandler (HCb cb)] else []))
+         (jcbu (jobs s j))) ++ log s.
+Proof. exact set_next_run_events. Qed.
+Print Assumptions C07_set_next_run_events.
+
+Theorem C07_finish_callbacks_once :
+  forall E j s,
+  let mk := fun cb => ECbFin j cb in
+  let b := jobs s j in
+  let s1 := set_job j (with_linked (with_status_next b Finished None) false) s in
+  let s2 := if jstored b then set_store (store_remove (jkey b) (store s1)) s1 else s1 in
+  log (finish_job E j s) = rev (cb_events E mk (jcbf b) (log s)) ++ log s /\
+  filter is_cbev (cb_events E mk (jcbf b) (log s)) = map mk (jcbf b) /\
+  (forall c1 c2, jcbf b = c1 ++ c2 ->
+     let sm := run_cbs E mk c1 s2 in
+     finish_job E j s = run_cbs E mk c2 sm /\ jstatus (jobs sm j) = Finished /\ jnext (jobs sm j) = None /\
+     jlinked (jobs sm j) = false /\ store sm = store (finish_job E j s)) /\
+  jstatus (jobs (finish_job E j s) j) = Finished.
+Proof. exact finish_callbacks_once. Qed.
+Print Assumptions C07_finish_callbacks_once.
+
+Theorem C07_finish_job_events :
+  forall E j s, NoDup (jcbf (jobs s j)) ->
+  log (finish_job E j s) =
+  rev (flat_map (fun cb => ECbFin j cb :: (if fail_cb E cb (count_cb cb (log s)) then [EHandler (HCb cb)] else []))
+         (jcbf (jobs s j))) ++ log s.
+Proof. exact finish_job_events. Qed.
+Print Assumptions C07_finish_job_events.
+
+Theorem C07_cb_lists_nodup :
+  forall E fuel hs t0 en ops s rs,
+    run E fuel hs (init t0 en) ops = (s, rs) -> ~ In NoFuel rs ->
+    forall j, NoDup (jcbu (jobs s j)) /\ NoDup (jcbf (jobs s j)).
+Proof. exact cb_lists_nodup. Qed.
+Print Assumptions C07_cb_lists_nodup.
+
+(* one operation: a finished job stays finished and gets no further on_finished event; a job that finishes in the
+   operation gets one event per callback registered at that moment; nobody else gets any *)
+Theorem C07_fin_events_step :
+  forall E fuel hs s o s' r,
+    Inv s -> Fresh s -> op_scoped s o -> step E fuel hs s o = (s', r) -> r <> NoFuel ->
+    FinStep s s' /\ Fresh s'.
+Proof. exact fin_events_step. Qed.
+Print Assumptions C07_fin_events_step.
+
+(* every history that addresses existing jobs only: at most one on_finished event per job and callback, none
+   while the job is not finished *)
+Theorem C07_finished_once :
+  forall E fuel hs t0 en ops s rs,
+    run E fuel hs (init t0 en) ops = (s, rs) -> ~ In NoFuel rs -> scoped E fuel hs (init t0 en) ops ->
+    forall j cb,
+      (count_fin j cb (log s) <= 1)%nat /\
+      (jstatus (jobs s j) <> Finished -> ~ In (ECbFin j cb) (log s)).
+Proof. exact finished_once. Qed.
+Print Assumptions C07_finished_once.
+
+(* ... and exactly one iff the callback was registered when the job finished *)
+Theorem C07_finished_once_exact :
+  forall E fuel hs t0 en ops1 o ops2 s1 rs1 s2 r s3 rs3 j cb,
+    run E fuel hs (init t0 en) ops1 = (s1, rs1) -> step E fuel hs s1 o = (s2, r) -> run E fuel hs s2 ops2 = (s3, rs3) ->
+    ~ In NoFuel rs1 -> r <> NoFuel -> ~ In NoFuel rs3 ->
+    scoped E fuel hs (init t0 en) ops1 -> op_scoped s1 o -> scoped E fuel hs s2 ops2 ->
+    jstatus (jobs s1 j) <> Finished -> jstatus (jobs s2 j) = Finished ->
+    jstatus (jobs s3 j) = Finished /\
+    count_fin j cb (log s3) = if memb cb (jcbf (jobs s1 j)) then 1%nat else 0%nat.
+Proof. exact finished_once_exact. Qed.
+Print Assumptions C07_finished_once_exact.
+
+(* finished is never left *)
+Theorem C07_finished_forever :
+  forall E fuel hs ops s s' rs j,
+    Hist s -> scoped E fuel hs s ops -> run E fuel hs s ops = (s', rs) -> ~ In NoFuel rs ->
+    jstatus (jobs s j) = Finished -> jstatus (jobs s' j) = Finished.
+Proof. exact finished_forever. Qed.
+Print Assumptions C07_finished_forever.
+
+Theorem C07_reachable_hist :
+  forall E fuel hs t0 en ops s rs,
+    run E fuel hs (init t0 en) ops = (s, rs) -> ~ In NoFuel rs -> scoped E fuel hs (init t0 en) ops -> Hist s.
+Proof. exact reachable_hist. Qed.
+Print Assumptions C07_reachable_hist.
+
+(* controls of the same job compare equal: a control is the job index in this model *)
+Theorem C07_control_eq : forall j1 j2 : nat, Nat.eqb j1 j2 = true <-> j1 = j2.
+Proof. exact control_eq. Qed.
+Print Assumptions C07_control_eq.
